@@ -61,7 +61,32 @@ def match_known(known, rep):
         if k["matcher"] == "needs_mutation_of_returned_alphabet":
             if _needs_alphabet_mutation(rep):
                 return k
+        if k["matcher"] == "three_digit_ring_number_in_output":
+            if _three_digit_ring_number(rep):
+                return k
     return None
+
+
+def _three_digit_ring_number(rep):
+    """The decoded SMILES of the failing string contains a ring closure number of three digits.  Since fix
+    0cd4ce7 that happens only when 100 or more rings are open at the same time (closed rings' numbers are
+    reused), and it is the very reason the output cannot be read."""
+    import re
+    d = rep.get("violation", {}).get("detail", {})
+    out = d.get("smiles")
+    if out is None and isinstance(d.get("got"), (list, tuple)) and len(d["got"]) > 1:
+        out = d["got"][1]
+    if not isinstance(out, str) or not re.search(r"%\d\d\d", out):
+        return False
+    return any(a and a[0] == "unreadable" for a in d.get("atoms", [["unreadable"]]))
+
+
+def peel_ids(known_entry, rep):
+    """Which ops of the full history to drop after a known finding was matched, so that the rest of the
+    run can still be judged."""
+    if known_entry["matcher"] == "three_digit_ring_number_in_output":
+        return {rep["ops"][-1]["id"]}          # the alpha_decode op that generated the string
+    return {op["id"] for op in rep["ops"] if op["op"] == "mutate"}
 
 
 def _needs_alphabet_mutation(rep):
